@@ -1024,11 +1024,25 @@ void apply_logic_net(bool const *inp, {BITS_TO_DTYPE[32]} *out, size_t len) {{
         """Forward pass through the compiled network."""
         if isinstance(x, torch.Tensor):
             x = x.numpy()
+        self._check_batch_shape(x)
 
         if self.num_classes:
             return self._forward_with_groupsum(x, verbose)
         else:
             return self._forward_direct(x, verbose)
+
+    def _check_batch_shape(self, x: np.ndarray):
+        """Refuse a batch whose samples do not have the declared layout (the library only sees a flat buffer)."""
+        declared = tuple(int(v) for v in self.input_shape)
+        ok = x.ndim >= 2 and int(np.prod(x.shape[1:])) == self._get_input_size()
+        if ok and len(declared) > 1:
+            # an image model takes the declared (channels, *image) layout, or samples that are flattened already
+            ok = x.ndim == 2 or tuple(x.shape[1:]) == declared
+        elif ok and self.layer_order and self.layer_order[0][0] != 'flatten':
+            # a dense model without a leading Flatten takes (batch, in_dim) only, like its first LogicDense
+            ok = x.ndim == 2
+        if not ok:
+            raise ValueError(f"expected a batch of samples of shape {declared}, got shape {tuple(x.shape)}")
 
     def _forward_with_groupsum(self, x: np.ndarray, verbose: bool) -> torch.IntTensor:
         """Forward pass with GroupSum (batch processing)."""
